@@ -5,22 +5,18 @@ From G14 Require Export Model.
 Open Scope N_scope.
 
 (* shell expression: '*' any sequence of characters, '?' any one character, the rest literal *)
-Fixpoint glob_fuel (fuel : nat) (p s : str) : bool :=
-  match fuel with
-  | O => false
-  | S n =>
-      match p with
-      | [] => nil_str s
-      | c :: p' =>
-          if c =? 42 then
-            glob_fuel n p' s || match s with [] => false | _ :: s' => glob_fuel n p s' end
-          else match s with
-               | [] => false
-               | d :: s' => ((c =? 63) || (c =? d)) && glob_fuel n p' s'
-               end
-      end
+Fixpoint glob (p s : str) : bool :=
+  match p with
+  | [] => nil_str s
+  | c :: p' =>
+      if c =? 42 then
+        (fix star (s : str) : bool :=
+           glob p' s || match s with [] => false | _ :: s' => star s' end) s
+      else match s with
+           | [] => false
+           | d :: s' => ((c =? 63) || (c =? d)) && glob p' s'
+           end
   end.
-Definition glob (p s : str) : bool := glob_fuel (S (length p + length s)) p s.
 
 (* the characters a pattern / a matched text of the property's domain is made of *)
 Definition pat_char_ok (c : N) : bool := negb (js_meta c) || (c =? 63).      (* literals, '.', '*', '?' *)
